@@ -356,8 +356,24 @@ let cmd_opts () =
      | None -> print_endline "decode-failed")
   done with End_of_file -> ())
 
+(* ---------- version marker (C17): stdin lines "<markerhex|absent> <locked 0|1> <journal0 0|1>" ---------- *)
+let cmd_marker () =
+  (try while true do
+    let l = input_line stdin in
+    match split ' ' (String.trim l) with
+    | [m; lk; j0] ->
+        let d = { ds_marker = (if m = "absent" then None else Some (bytes_of_hex m)); ds_lock_held = (lk = "1");
+                  ds_has_journal0 = (j0 = "1") } in
+        let (eff, r) = open_db d in
+        let rs = match r with OpenOk -> "ok" | InvalidVersion _ -> "err version" | Locked -> "err locked" | IoError -> "err io" in
+        let mutating = List.exists (fun e -> match e with FsCreateJournal | FsWriteMarker | FsTruncateJournalTail -> true | _ -> false) eff in
+        Printf.printf "%s %s\n" rs (if mutating then "modifies" else "unmodified")
+    | _ -> ()
+  done with End_of_file -> ())
+
 let () =
   match Array.to_list Sys.argv with
+  | [_; "marker"] -> cmd_marker ()
   | [_; "opts"] -> cmd_opts ()
   | [_; "run"; cfg; file] -> cmd_run cfg file
   | [_; "readjournal"; file] -> cmd_readjournal file
